@@ -34,6 +34,7 @@ def run(chk, ix, tier):
     rules_tags.check_v1_renderings(chk, ix, tier)
     rules_tags.check_v2_renderings(chk, ix, tier)
     rules_tags.check_v2_glue_concrete(chk, ix)
+    rules_tags.check_v2_list_form(chk, ix)
     rules_tags.check_tables_and_dispatch(chk, ix)
     rules_tags.check_protocol_use(chk, ix, "U5")
     for r, n in (("U1", 900), ("U2", 250), ("U3", 2), ("U4", 7), ("U5", 7), ("T4", 200)):
